@@ -62,12 +62,30 @@ def _offsetting(draw, big):
   return spec
 
 
+@st.composite
+def _share_readings(draw, big):
+  """Flavour for the two readings of the treatment share: a large geo that is not admitted to the search (must be
+  excluded), so that share-of-all-data and share-of-admitted-geos differ clearly, and a share range that binds on
+  both sides."""
+  spec = draw(G.search_spec(max_geos=big, min_geos=4, constraint_p=0.15, allow_budget=False, elig_style='free'))
+  panel, params = spec['panel'], spec['params']
+  panel['level'][0] = draw(st.sampled_from([20, 32]))
+  panel['flat'] = []
+  spec['elig']['rows'] = [[r[0], 0, 0, 1] if r[0] == panel['ids'][0] else r for r in spec['elig']['rows']]
+  lo = draw(st.floats(0.1, 0.6))
+  params['share_q'] = [lo, min(1.0, lo + draw(st.floats(0.1, 0.5)))]
+  params['n_geos_max'] = None
+  params['edge'] = None
+  spec['history'] = None
+  return spec
+
+
 def strategy(tier):
   big = 6 if tier == 'quick' else 7
   opts = [G.search_spec(max_geos=big, min_geos=2, constraint_p=0.45),
           G.search_spec(max_geos=big, min_geos=3, constraint_p=0.3, elig_style='none'),
           G.search_spec(max_geos=big, min_geos=3, constraint_p=0.35, elig_style='mixed'),
-          _offsetting(min(big, 6))]
+          _offsetting(min(big, 6)), _share_readings(min(big, 6))]
   if tier == 'thorough':
     opts.append(G.search_spec(max_geos=8, min_geos=8, constraint_p=0.3))
   return st.one_of(*opts)
@@ -87,6 +105,7 @@ def analyse(sp):
   par = sp.par
   legal = list(sp.legal_designs())
   f_union, f_inter = [], []
+  f_all, f_adm = [], []          # feasible under one reading of the treatment share (band: no obligation)
   for T, C in legal:
     if sp.check_sizes(T, C) == 'out' or sp.check_geo_ratio(T, C) == 'out':
       continue
@@ -98,6 +117,10 @@ def analyse(sp):
     f_union.append((T, C))
     if vol == 'in' and bud == 'in' and rd['all'] == 'in' and rd['admitted'] == 'in':
       f_inter.append((T, C))
+    if vol == 'in' and bud == 'in' and rd['all'] == 'in':
+      f_all.append((T, C))
+    if vol == 'in' and bud == 'in' and rd['admitted'] == 'in':
+      f_adm.append((T, C))
   # allowed pruning
   pruned_T = {}
   if par.budget_range is not None:
@@ -118,7 +141,7 @@ def analyse(sp):
         opt_cache[S] = sp._status(b, par.budget_range[0], par.budget_range[1]) != 'in'
       return opt_cache[S]
 
-    for T in {T for T, _ in f_inter}:
+    for T in {T for T, _ in f_all} | {T for T, _ in f_adm}:
       hit = False
       items = sorted(T)
       for m in range(len(items), 0, -1):
@@ -132,7 +155,9 @@ def analyse(sp):
       pruned_T[T] = hit
   P = [(T, C) for T, C in f_inter if pruned_T.get(T, False)]
   M = [(T, C) for T, C in f_inter if not pruned_T.get(T, False)]
-  return {'legal': legal, 'f_union': f_union, 'f_inter': f_inter, 'P': P, 'M': M}
+  return {'legal': legal, 'f_union': f_union, 'f_inter': f_inter, 'P': P, 'M': M,
+          'M_all': [d for d in f_all if not pruned_T.get(d[0], False)],
+          'M_adm': [d for d in f_adm if not pruned_T.get(d[0], False)]}
 
 
 def score_of(sp, T, C, cache, budget_max):
@@ -143,7 +168,28 @@ def score_of(sp, T, C, cache, budget_max):
   return cache[key]
 
 
+WITNESS_CLASSES = ('needs-reading:all-data', 'needs-reading:admitted-geos')
+
+
+def cross_case(witness):
+  """An implementation may measure the treatment share against all geos in the data or against the admitted geos,
+  but it must be the same reading for every input: one case whose omissions only the first reading explains and
+  another that only the second explains show a search that is stricter than either."""
+  a, b = (witness.get(c) for c in WITNESS_CLASSES)
+  if a is not None and b is not None:
+    return {'spec': {'pair': [a, b]}, 'kinds': ['C03:share-reading-inconsistent'],
+            'details': [{'note': 'case 1 is consistent only with the all-data reading of treatment_share_range, case 2 only with the admitted-geos reading'}]}
+  return None
+
+
 def run(spec):
+  if 'pair' in spec:
+    outs = [run(s) for s in spec['pair']]
+    needs = {c for o in outs for c in o['cls'] if c in WITNESS_CLASSES}
+    viol = [v for o in outs for v in o['viol']]
+    if len(needs) == 2:
+      viol.append(('C03:share-reading-inconsistent', {'needs': sorted(needs)}))
+    return {'viol': viol, 'nt': True, 'cls': ['pair'], 'dc': 0}
   case = L.materialise(spec)
   sp = case.space
   cls = ['geos:%d' % len(sp.geos)]
@@ -196,35 +242,53 @@ def run(spec):
     if gt(recs[i + 1]['score'], recs[i]['score']):
       viol.append(('C03:not-best-first', dict(det, pos=i, a=[float(t) for t in recs[i]['score']], b=[float(t) for t in recs[i + 1]['score']])))
       break
-  # (iii) length
+  # (iii)-(v): the omissions must be explainable by ONE reading of the treatment share (all data, or admitted geos);
+  # an implementation may use either, but not something stricter than both
   if len(recs) > k:
     viol.append(('C03:more-than-k', dict(det, n=len(recs), k=k)))
-  if len(recs) < min(k, len(M)):
-    viol.append(('C03:too-few-designs', dict(det, n=len(recs), k=k, feasible_unpruned=len(M),
-                                              example=[sorted(x) for x in next(m for m in M if m not in set(pairs))])))
   Rset = set(pairs)
-  if len(recs) < k:
-    # (iv) everything outside the pruning set must be there
-    missing = [m for m in M if m not in Rset]
-    if missing and not len(recs) < min(k, len(M)):
-      viol.append(('C03:feasible-design-omitted', dict(det, T=sorted(missing[0][0]), C=sorted(missing[0][1]))))
-  elif recs and len(recs) == k:
-    # (v) dominance over the complement
-    last = ref_scores[-1]
-    if last is None or last[1] or last[0] is None:
-      dc += 1
-    else:
-      for m in M:
-        if m in Rset:
-          continue
-        sc, frag, _ = score_of(sp, m[0], m[1], cache, bmax)
-        if frag or sc is None:
-          dc += 1
-          continue
-        if gt(sc, last[0]):
-          viol.append(('C03:better-design-omitted', dict(det, T=sorted(m[0]), C=sorted(m[1]), its_score=list(sc), worst_returned=list(last[0]),
-                                                        worst_T=sorted(pairs[-1][0]), worst_C=sorted(pairs[-1][1]))))
-          break
+
+  def obligations(Mx):
+    out = []
+    d_c = 0
+    if len(recs) < min(k, len(Mx)):
+      out.append(('C03:too-few-designs', dict(det, n=len(recs), k=k, feasible_unpruned=len(Mx),
+                                              example=[sorted(x) for x in next(m for m in Mx if m not in Rset)])))
+    elif len(recs) < k:
+      missing = [m for m in Mx if m not in Rset]
+      if missing:
+        out.append(('C03:feasible-design-omitted', dict(det, T=sorted(missing[0][0]), C=sorted(missing[0][1]))))
+    elif recs and len(recs) == k:
+      last = ref_scores[-1]
+      if last is None or last[1] or last[0] is None:
+        d_c += 1
+      else:
+        for m in Mx:
+          if m in Rset:
+            continue
+          sc, frag, _ = score_of(sp, m[0], m[1], cache, bmax)
+          if frag or sc is None:
+            d_c += 1
+            continue
+          if gt(sc, last[0]):
+            out.append(('C03:better-design-omitted', dict(det, T=sorted(m[0]), C=sorted(m[1]), its_score=list(sc), worst_returned=list(last[0]),
+                                                          worst_T=sorted(pairs[-1][0]), worst_C=sorted(pairs[-1][1]))))
+            break
+    return out, d_c
+
+  if sp.par.treatment_share_range is None:
+    v_all, d_c = obligations(M)
+    viol += v_all
+    dc += d_c
+  else:
+    v_all, d1 = obligations(an['M_all'])
+    v_adm, d2 = obligations(an['M_adm'])
+    dc += d1 + d2
+    if v_all and v_adm:
+      viol += [(kk, dict(dd, share_reading='all-data (the admitted-geos reading is violated too)')) for kk, dd in v_all]
+    elif v_all or v_adm:
+      cls.append('explained-by-one-share-reading')
+      cls.append(WITNESS_CLASSES[1] if v_all else WITNESS_CLASSES[0])
   if an['P']:
     cls.append('pruning-set-nonempty')
   if len(an['f_union']) > k:
